@@ -2123,18 +2123,19 @@ void SVDlapack(matrix *m_, matrix *u, matrix *s, matrix *vt)
   int k;
   int m = m_->row;
   int n = m_->col;
+  int mn = (m_->row < m_->col) ? m_->row : m_->col; /* number of singular values */
   int lda = m_->row;
   int ldu = m_->row;
-  int ldvt = m_->col;
+  int ldvt = mn;
   int info;
   int lwork;
   double wkopt;
   double* work = NULL;
-  /* Local arrays */
+  /* Local arrays: dgesdd with jobz = 'S' returns u (m x mn), s (mn) and vt (mn x n) */
   double *s_, *u_, *vt_, *a;
-  s_ = xmalloc(sizeof(double)*m_->row);
-  u_ = xmalloc(sizeof(double)*m_->row*m_->row);
-  vt_ = xmalloc(sizeof(double)*m_->col*m_->col);
+  s_ = xmalloc(sizeof(double)*mn);
+  u_ = xmalloc(sizeof(double)*m_->row*mn);
+  vt_ = xmalloc(sizeof(double)*mn*m_->col);
   a = xmalloc(sizeof(double)*m_->row*m_->col);
   k = 0;
   for(j = 0; j < m_->col; j++){
@@ -2160,15 +2161,15 @@ void SVDlapack(matrix *m_, matrix *u, matrix *s, matrix *vt)
   }
 
   /* s are the eigenvectors singular values diagonal matrix*/
-  ResizeMatrix(s, n, n);
-  for(i = 0; i < m_->col; i++){
+  ResizeMatrix(s, mn, mn);
+  for(i = 0; i < mn; i++){
     s->data[i][i] = s_[i];
   }
   //conv2matrix(1, n, s_, 1, s);
   /* u is left singular vectors */
-  conv2matrix(m, n, u_, ldu, u);
+  conv2matrix(m, mn, u_, ldu, u);
   /*vt is the right singular vectors */
-  conv2matrix(m, n, vt_, ldvt, vt);
+  conv2matrix(mn, n, vt_, ldvt, vt);
   /* Free workspace */
   xfree(work);
   xfree(a);
